@@ -1,8 +1,21 @@
 (* C20 — small facts about the rational layer of C20_Model.v (the common-denominator encoding used by locate_q). *)
 From Coq Require Import ZArith QArith List Lia.
 Import ListNotations.
-Require Import C20_Model.
+Require Import C20_Model C20_Locate C20_Combi.
 Local Open Scope Z_scope.
+
+(* ------------------------------------------------------------------ non-vacuity of the hypotheses used in Properties_C20.v *)
+Example canonical_example :
+  canonical ([0; 0; 0], [[1]; [0; 2]; [3]]%nat) /\ sorted_parts ([0; 0; 0], [[1]; [0; 2]; [3]]%nat).
+Proof. split; [apply valid_simplex_canonical; reflexivity | repeat constructor]. Qed.
+
+Example interior_witness_example :
+  interior_witness [5; 3; -1; 3] 4 ([1; 0; -1; 0], [[1; 2; 3]; [0]; [4]]%nat) [1; 2; 1].
+Proof. exact (locate_interior_witness [5; 3; -1; 3] 4 eq_refl). Qed.
+
+Example in_rel_interior_example :
+  in_rel_interior [5; 3; -1; 3] 4 ([1; 0; -1; 0], [[1; 2; 3]; [0]; [4]]%nat) = true.
+Proof. reflexivity. Qed.
 
 Lemma qden_prod_divides : forall (xs : list Q) (q : Q), In q xs -> (Zpos (Qden q) | Zpos (qden_prod xs)).
 Proof.
